@@ -30,6 +30,7 @@ type Violation struct {
 	Known    string            `json:"known,omitempty"`
 	Model    map[string]uint64 `json:"model"`
 	Decision []int             `json:"decisions"`
+	Ctl      []int             `json:"picks"`
 	Where    string            `json:"where"`
 	Kind     string            `json:"kind"` // assert | panic | deadlock
 }
@@ -95,6 +96,11 @@ type Path struct {
 	concLimit int
 	stopped   bool
 
+	pin    map[string]uint64
+	pinCtl []int
+	pinPos int
+	ctl    []int
+
 	initingShallow bool
 	crash          *crashRec
 	crashReported  bool
@@ -136,6 +142,9 @@ func (p *Path) freshVar(name string, w int) *Term {
 	full := name
 	if k > 0 {
 		full = fmt.Sprintf("%s#%d", name, k)
+	}
+	if p.pin != nil {
+		return p.tt.Const(w, p.pin[full])
 	}
 	t := p.tt.Var(full, w)
 	p.inputs = append(p.inputs, inputVar{full, w, t})
@@ -209,6 +218,26 @@ func (p *Path) decide(n int, forkable []bool) int {
 	}
 	p.dec = append(p.dec, first)
 	return first
+}
+
+// decideCtl is a control decision (schedule, Pick, pool, select, map order). It is recorded separately so
+// that a concrete (pinned) replay can follow the same control choices.
+func (p *Path) decideCtl(n int) int {
+	if p.pin != nil {
+		c := 0
+		if p.pinPos < len(p.pinCtl) {
+			c = p.pinCtl[p.pinPos]
+		}
+		p.pinPos++
+		if c < 0 || c >= n {
+			c = 0
+		}
+		p.ctl = append(p.ctl, c)
+		return c
+	}
+	c := p.decide(n, nil)
+	p.ctl = append(p.ctl, c)
+	return c
 }
 
 // branch resolves a (possibly symbolic) boolean.
@@ -396,6 +425,7 @@ func (p *Path) where() string {
 func (p *Path) reportViolation(kind, msg, known string, model map[string]uint64) {
 	v := Violation{Msg: msg, Known: known, Model: model, Kind: kind, Where: p.where()}
 	v.Decision = append([]int(nil), p.dec...)
+	v.Ctl = append([]int(nil), p.ctl...)
 	p.res.Violations = append(p.res.Violations, v)
 }
 
